@@ -514,12 +514,23 @@ package ast
 //@ macro func idxComplete(m *WorkingMemory) bool { return
 //@      (forall vs string, xs string :: has(m.variableSnapshotMap, vs) && has(m.expressionSnapshotMap, xs) && str_contains(xs, vs) ==> inExprIdx(m, m.variableSnapshotMap[vs], m.expressionSnapshotMap[xs]))
 //@   && (forall vs string, as string :: has(m.variableSnapshotMap, vs) && has(m.expressionAtomSnapshotMap, as) && str_contains(as, vs) ==> inAtomIdx(m, m.variableSnapshotMap[vs], m.expressionAtomSnapshotMap[as])) }
+// exactness (C13): nothing is filed under a variable unless its snapshot really contains the variable's snapshot
+//@ macro func idxJustE(m *WorkingMemory) bool { return forall v *Variable, x *Expression :: inExprIdx(m, v, x) ==> (exists vs string, xs string :: has(m.variableSnapshotMap, vs) && m.variableSnapshotMap[vs] == v && has(m.expressionSnapshotMap, xs) && m.expressionSnapshotMap[xs] == x && str_contains(xs, vs)) }
+//@ macro func idxJustA(m *WorkingMemory) bool { return forall v *Variable, a *ExpressionAtom :: inAtomIdx(m, v, a) ==> (exists vs string, as string :: has(m.variableSnapshotMap, vs) && m.variableSnapshotMap[vs] == v && has(m.expressionAtomSnapshotMap, as) && m.expressionAtomSnapshotMap[as] == a && str_contains(as, vs)) }
 //@ func (workingMem *WorkingMemory) IndexVariables() ()
-//@   serves C01 C02
+//@   serves C01 C02 C13
 //@   opt alloc=1
 //@   requires workingMem != nil
 //@   modifies WorkingMemory.expressionVariableMap, WorkingMemory.expressionAtomVariableMap, map[*Variable][]*Expression, map[*Variable][]*ExpressionAtom, alloc
 //@   ensures[C01,C02] complete: idxComplete(workingMem)
+//@   ensures[C13] exactE: idxJustE(workingMem)
+//@   ensures[C13] exactA: idxJustA(workingMem)
+//@   invariant@1[C13] justE: idxJustE(workingMem)
+//@   invariant@1[C13] justA: idxJustA(workingMem)
+//@   invariant@2[C13] justE: idxJustE(workingMem)
+//@   invariant@2[C13] justA: idxJustA(workingMem)
+//@   invariant@3[C13] justE: idxJustE(workingMem)
+//@   invariant@3[C13] justA: idxJustA(workingMem)
 //@   invariant@1 outerE: forall j int, xs string :: 0 <= j && j < $i && has(workingMem.expressionSnapshotMap, xs) && str_contains(xs, $keys[j]) ==> inExprIdx(workingMem, workingMem.variableSnapshotMap[$keys[j]], workingMem.expressionSnapshotMap[xs])
 //@   invariant@1 outerA: forall j int, as string :: 0 <= j && j < $i && has(workingMem.expressionAtomSnapshotMap, as) && str_contains(as, $keys[j]) ==> inAtomIdx(workingMem, workingMem.variableSnapshotMap[$keys[j]], workingMem.expressionAtomSnapshotMap[as])
 //@   invariant@1 mapsfresh: workingMem.expressionVariableMap != nil && workingMem.expressionAtomVariableMap != nil
